@@ -53,6 +53,7 @@ fn dispatch(entry: &str, spec: &Value) -> Result<Option<String>, String> {
         "compose" => compose::run(spec),
         "ws_framed" => ws::run(spec),
         "ss_chunk_limit" => compose::ss_chunk_limit(spec),
+        "eih_chain" => compose::eih_chain(spec),
         "address_roundtrip" => address::roundtrip(spec),
         "validate_timestamp" => c10::validate_timestamp(spec),
         "vmess_matching" => c10::vmess_matching(spec),
